@@ -13,10 +13,11 @@ def defined_functions(*texts):
             names.add(mo.group(1))
     return names
 
-def generate(m, roots, stop=(), cut_throw=True, instrument_stores=False, harness_text='', extra_globals=(), stubs=('cxx.c',), nsw_checks=False):
+def generate(m, roots, stop=(), cut_throw=True, instrument_stores=False, harness_text='', extra_globals=(), stubs=('cxx.c',), nsw_checks=False, export_types=()):
     """returns (C text, info).  Externals that no stub / harness defines get a body that fails an assertion when reached,
     so an unmodelled call can never make a proof pass silently."""
     g = cgen.Cgen(m, cut_throw=cut_throw, instrument_stores=instrument_stores, nsw_checks=nsw_checks)
+    g.export_types = list(export_types)
     text = g.generate(roots, stop=stop, extra_globals=extra_globals)
     have = defined_functions(harness_text, *[open(os.path.join(STUBS, s)).read() for s in stubs])
     guards = []
@@ -158,11 +159,11 @@ def classify(res):
     return 'proved', None, None
 
 def cbmc_check(ctx, m, tag, roots, harness_file, stop=(), defines=(), unwind=None, unwindset=None, timeout=300, cut_throw=True,
-               instrument_stores=False, solver='cadical', extra=(), function='harness', extra_globals=(), keep=False, nsw_checks=False):
+               instrument_stores=False, solver='cadical', extra=(), function='harness', extra_globals=(), keep=False, nsw_checks=False, export_types=()):
     """full E1 pipeline for one harness function.  returns result dict (verdict etc.) with cex inputs if violated"""
     sc = build.scratch()
     htext = open(harness_file).read()
-    text, info = generate(m, roots, stop=stop, cut_throw=cut_throw, instrument_stores=instrument_stores, harness_text=htext, extra_globals=extra_globals, nsw_checks=nsw_checks)
+    text, info = generate(m, roots, stop=stop, cut_throw=cut_throw, instrument_stores=instrument_stores, harness_text=htext, extra_globals=extra_globals, nsw_checks=nsw_checks, export_types=export_types)
     d = os.path.join(sc, 'e1-' + hashlib.md5((tag + harness_file + function + repr(defines)).encode()).hexdigest()[:10]); os.makedirs(d, exist_ok=True)
     open(os.path.join(d, 'gen.c'), 'w').write(text)
     res = run_cbmc(harness_file, [d, STUBS, os.path.dirname(harness_file)], defines=defines, unwind=unwind, unwindset=unwindset, function=function,
@@ -201,8 +202,13 @@ def replay_native(m, harness_file, function, inputs, defines=(), timeout=120, sa
     sc = build.scratch()
     htext = open(harness_file).read()
     stubtexts = [open(os.path.join(STUBS, 'cxx.c')).read()]
-    have = defined_functions(htext, *stubtexts)
-    used = set(re.findall(r'\b(F_\w+)\s*\(', htext))
+    # the harness text as the replay build will see it (preprocessor conditionals resolved)
+    dpre = os.path.join(sc, 'replay-pp-' + hashlib.md5((harness_file + repr(defines)).encode()).hexdigest()[:8]); os.makedirs(dpre, exist_ok=True)
+    open(os.path.join(dpre, 'gen.c'), 'w').write('\n')
+    rpp = subprocess.run(['gcc', '-E', '-P', '-DVF_REPLAY=1', harness_file, '-I', dpre, '-I', STUBS, '-I', os.path.dirname(harness_file)] + ['-D' + x for x in defines], capture_output=True, text=True)
+    hpp = rpp.stdout if rpp.returncode == 0 else htext
+    have = defined_functions(hpp)
+    used = set(re.findall(r'\b(F_\w+)\s*\(', hpp))
     g = cgen.Cgen(m)
     shims = []; protos = []
     allnames = {('F_' + irparse.cname(n)): n for n in list(m.funcs) + list(m.decls)}
